@@ -506,6 +506,16 @@ class ComponentLevel3( ComponentLevel2 ):
         if writer not in writer_prop:
           pass
 
+        # Two readers of one net that are overlapping slices of the same
+        # signal would drive the bits they share twice
+        for v in net:
+          if v != writer and v.is_signal():
+            for u in v.get_sibling_slices():
+              if u is not v and u is not writer and u in net and u.slice_overlap( v ):
+                raise MultiWriterError( \
+                  "Two-writer conflict \"{}\", \"{}\" (overlapping slices) in the following net:\n - {}".format(
+                    repr(v), repr(u), "\n - ".join([repr(x) for x in net])) )
+
         for v in net:
           if v != writer:
             writer_prop[ v ] = True # The reader becomes new writer
